@@ -43,8 +43,11 @@ def limit_impl(tier, speed, kind="engine"):
     return float(e.emissions_g_per_kwh(EmissionType.NOX, 0.5)), e
 
 
+BOUNDARY = [1.0, 2.0, 50.0, 100.0, 129.0, 129.999, 130.0, 130.001, 131.0, 200.0, 514.0, 720.0, 1000.0, 1800.0, 1999.0, 1999.999, 2000.0]
+
+
 def speeds(rng, k):
-    base = [1.0, 2.0, 50.0, 100.0, 129.0, 129.999, 130.0, 130.001, 131.0, 200.0, 514.0, 720.0, 1000.0, 1800.0, 1999.0, 2000.0]
+    base = list(BOUNDARY)
     return base + [float(np.round(rng.uniform(1, 2000), 3)) for _ in range(k)] + [float(np.round(rng.uniform(125, 135), 4)) for _ in range(k // 3)]
 
 
@@ -52,8 +55,9 @@ def run_limits(ctx, speed_list, model=True):
     prev = {1: None, 2: None, 3: None}
     for n in sorted(speed_list):
         vals = {}
-        for tier in (1, 2, 3):
-            kind = "engine" if (int(n * 1000) + tier) % 4 else "cogas"
+        # the ends of the ranges on both classes (each carries its own copy of the regulation), the rest on one of them
+        for tier, kind in [(t, k) for t in (1, 2, 3) for k in (("engine", "cogas") if n in BOUNDARY else
+                                                                ("engine" if (int(n * 1000) + t) % 4 else "cogas",))]:
             where = {"case": {"kind": "limit", "tier": tier, "speed": n, "component": kind}}
             try:
                 v, _ = limit_impl(tier, n, kind)
@@ -75,7 +79,7 @@ def run_limits(ctx, speed_list, model=True):
                 mv = struct.unpack("<d", struct.pack("<Q", a["bits"]))[0]
                 if not close(mv, v, tol=1e-12):
                     ctx.fail("correspondence", "limit-value", f"tier {tier} at {n} rpm: model {mv} impl {v}", where)
-            ctx.case_done(signature=("limit", tier, n))
+            ctx.case_done(signature=("limit", tier, n, kind))
         if len(vals) == 3 and not (vals[1] >= vals[2] * (1 - 1e-12) and vals[2] >= vals[3] * (1 - 1e-12)):
             ctx.fail("predicate", "tier-order", f"at {n} rpm: I {vals[1]} II {vals[2]} III {vals[3]}", {"case": {"kind": "limit", "tier": 0, "speed": n}})
 
@@ -160,7 +164,7 @@ CORPUS = core.VERIF / "corpus" / "C09"
 
 
 def run(ctx):
-    ctx.rule = ("every tier x rated speeds {1, 2, 50, 100, 129, 129.999, 130, 130.001, 131, 200, 514, 720, 1000, 1800, 1999, 2000} + random "
+    ctx.rule = ("every tier x rated speeds {1, 2, 50, 100, 129, 129.999, 130, 130.001, 131, 200, 514, 720, 1000, 1800, 1999, 1999.999, 2000} (these on Engine and COGAS both) + random "
                 "speeds in [1,2000] + a dense sample of [125,135], on Engine (3/4) and COGAS (1/4) objects; plus engines (30% geared) with tier or "
                 "curve NOx and 0-3 curve species over 1-6 step power series for the mass formula; distinct by (tier, speed) / (engine, powers)")
     ctx.assumptions += ["np.power and Lean's Float.pow are both the C library pow (compared to 1e-12)",
